@@ -67,7 +67,9 @@ var fieldValues = map[string][]string{
 var varyConfigs = []string{"", "X-A", "X-A, X-B", "X-B, X-A", "x-a", "*", "X-A, *", "Content-Language", "User-Agent", "Authorization",
 	"X-A|X-B", "If-Unmodified-Since", "X-A,,X-B", "Accept-Encoding", "TE", "Accept", "accept-encoding, X-A",
 	// fields the cache itself adds to a validation request; names that are not tokens / not valid UTF-8
-	"If-None-Match", "If-Modified-Since", "X-A, If-None-Match", "X-\xe9", "*, X-\xe9", "X-A, x-\xff\xfe"}
+	"If-None-Match", "If-Modified-Since", "X-A, If-None-Match",
+	// a field line that is not Vary syntax (a stray quote) in front of a "*" line: the "*" still counts
+	"X-A\"|*", "\"|X-A, *", "X-\xe9", "*, X-\xe9", "X-A, x-\xff\xfe"}
 
 // method tokens are case-sensitive: "get" is an extension method, not GET
 var unsafeMethods = []string{"POST", "PUT", "DELETE", "PATCH", "PROPPATCH", "MKCOL", "FOO", "post", "get", "Get", "gEt"}
